@@ -341,6 +341,8 @@ def _extract_attributes(element):
 
         # An element without text holds the empty string, not None.
         text = subel.text if subel.text is not None else ""
+        # The text is the value unless a recognised attribute says otherwise.
+        _v = text
         for key, value in subel.attrib.items():
             if key == _ns_xsi("type"):
                 datatype = xml_qname_to_QualifiedName(subel, value)
@@ -360,9 +362,6 @@ def _extract_attributes(element):
                     % (_t, str(key), str(value)),
                     UserWarning,
                 )
-
-        if not subel.attrib:
-            _v = text
 
         attributes.append((_t, _v))
 
